@@ -1,8 +1,8 @@
 (* C16 - The BUILD language agrees with Python on its documented subset.
    This file holds only the statement, the property theorems and their non-vacuity examples. *)
 From Coq Require Import Permutation Sorted.
-From PlzV Require Import Base.Harness Model.C16_Syntax Model.C16_Ops Model.C16_Prim Model.C16_Eval Model.C16 Model.C16_Pure Model.C16_Sort Model.C16_Pure2.
-From PlzV Require Import Proof.C16_Ops Proof.C16_Int Proof.C16 Proof.C16_Prog Proof.C16_Pure Proof.C16_Sort Proof.C16_Pure2.
+From PlzV Require Import Base.Harness Model.C16_Syntax Model.C16_Ops Model.C16_Prim Model.C16_Eval Model.C16 Model.C16_Pure Model.C16_Sort Model.C16_Pure2 Model.C16_Effects.
+From PlzV Require Import Proof.C16_Effects Proof.C16_Ops Proof.C16_Int Proof.C16 Proof.C16_Prog Proof.C16_Pure Proof.C16_Sort Proof.C16_Pure2.
 
 (* Every program of the modelled subset (integers, strings, lists, dicts, comprehensions, functions, if/for and
    the builtins len sorted reversed range enumerate zip any all min max str join split ...) that asp evaluates
@@ -113,7 +113,28 @@ Definition C16_partial_statement : Prop :=
         interpretList reserves for a comprehension over a range is never negative and never too small *)
   /\ (forall a b c, range_len a b c = Gen.C16Builtins.pyrange_len wrap64 a b c)
   /\ (forall a b c items, range_items Asp a b c = Ok items -> in_int64 (b - a + c - 1) = true ->
-        range_len a b c = Z.of_nat (length items)).
+        range_len a b c = Z.of_nat (length items))
+  (* 9. WHAT IS EVALUATED (follow-up 2). interpretOps with the guards of its mixed-precedence branch TRANSLATED by gotrans from
+        interpreter.go (Gen/C16Builtins.interpret_ops_guards: short-circuit first, then the unary case) is the transcribed flat_ops
+        for every chain, operand semantics and state - so conjuncts 2-4 speak about the translated source, side effects included
+        (the state is threaded through every operand) - and a left operand that decides an and / or in front of tighter operators
+        evaluates NOTHING: the chain returns the operand and the state it started in, whatever the skipped operands would do *)
+  /\ (forall (X V S : Type) (evalx : X -> S -> res (V * S)) (apply_bin : binop -> V -> V -> S -> res (V * S))
+             (apply_un : unop -> V -> S -> res V) (truthy : V -> S -> bool) (ops : list (item X)) (obj : V) (st : S),
+        flat_ops_g evalx apply_bin apply_un truthy Gen.C16Builtins.interpret_ops_guards obj ops st =
+        flat_ops evalx apply_bin apply_un truthy obj ops st)
+  /\ (forall (X V S : Type) (evalx : X -> S -> res (V * S)) (apply_bin : binop -> V -> V -> S -> res (V * S))
+             (apply_un : unop -> V -> S -> res V) (truthy : V -> S -> bool) (o : binop) (x : X) (rest : list (item X)) (obj : V) (st : S),
+        alazy (KB o) = true -> all_tighter (IBin o x) rest = true -> Bool.eqb (truthy obj st) (binop_eqb o And) = false ->
+        flat_ops_g evalx apply_bin apply_un truthy Gen.C16Builtins.interpret_ops_guards obj (IBin o x :: rest) st = Ok (obj, st))
+  (* 10. the variables of a comprehension are bound in the scope gotrans reads off interpretJoin / interpretList (cs := s.NewScope(..)):
+        for EVERY list of items, filter, element expression and variable name, the optimised 'lit'.join([e for x in l]) returns the
+        string AND the scopes of the generic path (interpretList, then strJoin), and both leave every enclosing scope exactly as it was *)
+  /\ (forall (V : Type) (elem : @stack V -> str) (cond : @stack V -> bool) (name base : str) (items : list V) (s : stack),
+        join_run elem cond Gen.C16Builtins.join_comp_scope name base items s =
+        generic_join_run elem cond Gen.C16Builtins.list_comp_scope name base items s
+        /\ snd (join_run elem cond Gen.C16Builtins.join_comp_scope name base items s) = s
+        /\ snd (list_run elem cond Gen.C16Builtins.list_comp_scope name items s) = s).
 
 Theorem C16_partial : C16_partial_statement.
 Proof.
@@ -121,7 +142,7 @@ Proof.
         (conj (@chain_class_none_safe vexpr)
         (conj (@groupings_agree vexpr value)
         (conj int_ops_agree (conj list_add_always_fresh (conj int_chain_program_agrees
-        (conj asp_sorted_stable (conj asp_sorted_is_the_stable_sort (conj asp_sorted_perm_all_lengths (conj dict_union_always_fresh (conj dict_union_independent (conj union_translated_is_apply_bin (conj pure2_subset_program_agrees (conj range_len_is_source range_len_counts_items))))))))))))))).
+        (conj asp_sorted_stable (conj asp_sorted_is_the_stable_sort (conj asp_sorted_perm_all_lengths (conj dict_union_always_fresh (conj dict_union_independent (conj union_translated_is_apply_bin (conj pure2_subset_program_agrees (conj range_len_is_source (conj range_len_counts_items (conj interpret_ops_translated (conj lazy_operand_not_evaluated join_comprehension_scoped)))))))))))))))))).
 Qed.
 Print Assumptions C16_partial.
 
@@ -312,3 +333,16 @@ Example C16_partial_range_len_nonvacuous :
   /\ run Asp [] FUEL [p] = [OGlobals [(s "l", OList false 0 []); (s "m", OList false 0 [OInt 1%Z])] [(s "l", OList false 0 []); (s "m", OList false 0 [OInt 1%Z])]]
   /\ range_len 3 2 1 = 0%Z /\ range_len 1 3 3 = 1%Z /\ Z.quot (2 - 3) 1 = (-1)%Z /\ Z.quot (3 - 1) 3 = 0%Z.
 Proof. vm_compute. repeat split. Qed.
+
+(* Follow-up 2, non-vacuity and necessity: with operands that COUNT their evaluations, `0 and <operand> == 1` evaluates nothing under
+   the translated guards (as CPython does) and two operands when the short-circuit guard is missing; with cs := s (JSame) the variable
+   name = "lib" of the enclosing scope is overwritten by the last item, with the translated scope it is not - the joined string is
+   "a.go b.go" either way. *)
+Example C16_partial_effects_nonvacuous :
+  (flat_ops_g count_evalx count_bin count_un count_truthy [Gen.C16Builtins.GUnary] 0%Z lazy_witness 0%nat = Ok (0%Z, 2%nat)
+   /\ flat_ops_g count_evalx count_bin count_un count_truthy Gen.C16Builtins.interpret_ops_guards 0%Z lazy_witness 0%nat = Ok (0%Z, 0%nat)
+   /\ py_ops count_evalx count_bin count_un count_truthy 0%Z lazy_witness 0%nat = Ok (0%Z, 0%nat))
+  /\ (slookup (s "name") (snd (join_run leak_elem (fun _ => true) Gen.C16Builtins.JSame (s "name") (s " ") [s "a.go"; s "b.go"] leak_stack)) = Some (s "b.go")
+      /\ fst (join_run leak_elem (fun _ => true) Gen.C16Builtins.JSame (s "name") (s " ") [s "a.go"; s "b.go"] leak_stack) = s "a.go b.go"
+      /\ join_run leak_elem (fun _ => true) Gen.C16Builtins.join_comp_scope (s "name") (s " ") [s "a.go"; s "b.go"] leak_stack = (s "a.go b.go", leak_stack)).
+Proof. exact (conj without_short_circuit_guard_operand_is_evaluated same_scope_join_leaks). Qed.
